@@ -1065,6 +1065,10 @@ func (e *Evaluator) evalRules(rules []*Rule) error {
 		match := true
 		if rule.Pattern != nil {
 			cell, err := e.evalExpr(rule.Pattern)
+			if err == errNext {
+				// next in a function called from the pattern
+				return nil
+			}
 			if err != nil {
 				return err
 			}
